@@ -257,3 +257,8 @@ def replay(clause, case, col):
         check_value(p, v, col, case.get("via", "functional"))
 
     progs.replay_program(case, col, per_case)
+
+
+def cg_plan(seed):
+    """coverage-guided shards of the thorough tier (harness/cg.py): same strategies and check functions, choices from libFuzzer"""
+    return [{"seed": seed * 1000 + 900 + k, "n": 0, "depth": 4, "adversarial": k % 2 == 1, "cg": {"runs": 6000}} for k in range(4)]
